@@ -68,6 +68,10 @@ def forms(pid, rng):
         out.append((stun.msg(1, tid, struct.pack("!HH", 3, 4) + b"\0\0\0\x02"), set(range(8, 20)) | {27}))
         out.append((stun.msg(1, rb(16)), set(range(4, 20))))
         out.append((stun.msg(1, rb(16), struct.pack("!HH", 3, 4) + b"\0\0\0\x02"), set(range(4, 20)) | {27}))
+        # cookie-less forms whose transaction id also reads as a DNS header (and question): still STUN's to answer
+        for tid in (bytes(16), b"\x00\x01\x00\x00\x00\x00\x00\x00\x02fr\x00\x00\x01\x00\x01", bytes(8) + rb(8)):
+            out.append((stun.msg(1, tid), set()))
+            out.append((stun.msg(1, tid, struct.pack("!HH", 3, 4) + b"\0\0\0" + bytes([rng.choice([0, 2, 4, 6])])), set()))
     elif pid == RPC_UDP:
         for nargs in (0, 4):
             m = rpc.call(rng.getrandbits(32), 100000, 2, 3, args=rb(nargs))
@@ -392,12 +396,13 @@ def shard(ctx, budget_s, learn):
         fs = forms(pid, rng)
         rng.shuffle(fs)
         for tr in transports(pid):
-            wit = next((full for full, _free in fs if sigref.identify(full, tr == "udp") == pid and real.identify(full, tr == "udp") == pid), None)
-            if wit is None:
+            wits_ = [full for full, _free in fs if sigref.identify(full, tr == "udp") == pid and real.identify(full, tr == "udp") == pid]
+            if not wits_:
                 continue
             x = rng.randrange(1024, 65535)
             for sp, dp in ((0, x), (x, 0), (0, 0), (65535, 65535), (1, 1), (x, x), (x, 65535), (65535, x)):
                 for v6 in (False, True):
+                    wit = rng.choice(wits_)          # every form takes its turn
                     rep = lab.ask(wit, tr, v6=v6, sp=sp, dp=dp)
                     ctx.stats["endpoint_witnesses"] += 1
                     ctx.nontrivial("endpoint", pid, tr, sp == 0, dp == 0, sp == dp, v6)
